@@ -173,6 +173,7 @@ def gen_reuse_check(ctx, msgs, fresh_obs, keyp):
     gen_msg(): outcome and octets must equal those of a fresh object (no validation or encoding result may be remembered
     across field changes).  msgs: [(message dict, legacy)], fresh_obs: do_gen results"""
     objs = {}
+    kept = []
     n = 0
     for k, (m, legacy) in enumerate(msgs):
         kind = m["kind"]
@@ -180,7 +181,9 @@ def gen_reuse_check(ctx, msgs, fresh_obs, keyp):
             objs[kind] = new_obj(kind)
         try:
             assign(objs[kind], m)
-            got = [0] + list(objs[kind].gen_msg(legacy))
+            raw = objs[kind].gen_msg(legacy)
+            kept.append((k, raw))           # the datagram object itself, read again after the whole sequence (below)
+            got = [0] + list(raw)
         except Exception as e:  # noqa
             got = exc_class(e)
         n += 1
@@ -190,6 +193,14 @@ def gen_reuse_check(ctx, msgs, fresh_obs, keyp):
                             expected=fresh_obs[k][:12], observed=got[:12])
             objs[kind] = new_obj(kind)      # report each divergence once
     ctx.count("reused_object_encodings_compared", n)
+    # a sender keeps the datagrams one message object produced (re-configured between the calls) and sends / decodes them later:
+    # each must still be what it was when gen_msg() returned it (no per-object encoding buffer handed out twice)
+    for k, raw in kept:
+        if fresh_obs[k][:1] == [0] and [0] + list(raw) != fresh_obs[k]:
+            ctx.oracle_fail("a datagram returned by gen_msg() changed when the same message object encoded its next message",
+                            dict(msg=short(msgs[k][0]), legacy=msgs[k][1], position=k, next=short(msgs[k + 1][0]) if k + 1 < len(msgs) else None),
+                            key=keyp + ":aliased-output", expected=fresh_obs[k][:12], observed=([0] + list(raw))[:12])
+            break
     # batch encoding: the RETURNED objects of many gen_msg() calls are kept (not copied) and read only after the whole batch - a
     # result must not be rewritten by a later call (no shared / recycled output buffer, on any object, of either direction)
     held = []
@@ -365,3 +376,54 @@ def short(m):
         b = s["burst"]
         s["burst"] = "len=%d head=%s" % (len(b), b[:6])
     return s
+
+
+def negotiation_check(ctx, keyp):
+    """header-version negotiation on one long-lived DATAInterface (what SETFORMAT drives), every request 0..15 twice and in mixed
+    order: a supported version is applied, an unsupported one is refused and leaves the version in force alone, pick_hdr_ver()
+    suggests the highest supported version not above the request (-1 below all) and changes nothing - and afterwards the set of
+    known versions is what it was, so valid messages of every version still validate, encode and parse.  Runs BEFORE the callers'
+    sweeps so that any process-wide damage shows up in them as well."""
+    import logging as _logging
+    from . import fakesock
+    fakesock.install()
+    D = toolkit()
+    import data_if as _data_if
+    saved = _logging.root.manager.disable
+    _logging.disable(_logging.CRITICAL)
+    try:
+        known0 = list(D.Msg.KNOWN_VERSIONS)
+        dif = _data_if.DATAInterface("127.0.0.1", 5802, "0.0.0.0", 5702)
+        in_force = dif._hdr_ver
+        n = 0
+        for req in list(range(16)) + [2, 1, 15, 0, 7, 1, 3, 0] + list(range(15, -1, -1)):
+            sug = dif.pick_hdr_ver(req)
+            want_sug = max([v for v in known0 if v <= req], default=-1)
+            if sug != want_sug or dif._hdr_ver != in_force:
+                ctx.oracle_fail("pick_hdr_ver(%d) gives %r / leaves version %r in force (expected suggestion %d, version %d untouched)" % (req, sug, dif._hdr_ver, want_sug, in_force),
+                                dict(request=req, known=known0), key=keyp + ":negotiation-pick", expected=[want_sug, in_force], observed=[sug, dif._hdr_ver])
+                return
+            ok = dif.set_hdr_ver(req)
+            if req in known0:
+                in_force = req
+            if bool(ok) != (req in known0) or dif._hdr_ver != in_force:
+                ctx.oracle_fail("set_hdr_ver(%d) returned %r and left version %r in force (expected %s, version %d): a refused request must not change the version of the link"
+                                % (req, ok, dif._hdr_ver, req in known0, in_force), dict(request=req, known=known0), key=keyp + ":negotiation-set",
+                                expected=[req in known0, in_force], observed=[bool(ok), dif._hdr_ver])
+                return
+            n += 1
+        if list(D.Msg.KNOWN_VERSIONS) != known0:
+            ctx.oracle_fail("the set of known header versions changed during negotiation: %r -> %r" % (known0, list(D.Msg.KNOWN_VERSIONS)), dict(known=known0),
+                            key=keyp + ":negotiation-known-versions", expected=known0, observed=list(D.Msg.KNOWN_VERSIONS))
+            return
+        for ver in known0:
+            for m in (dict(kind="tx", ver=ver, fn=1, tn=1, pwr=0, burst=[0, 1] * 74),
+                      dict(kind="rx", ver=ver, fn=2, tn=2, rssi=-60, toa=0, nope=False, mod=0, tset=0, tsc=0, ci=0, burst=[-127, 127] * 74)):
+                g = do_gen(m, False)
+                if g[:1] != [0] or do_parse(m["kind"], g[1:])[:1] != [0]:
+                    ctx.oracle_fail("after header-version negotiation a valid version-%d %s message no longer encodes / parses" % (ver, m["kind"]), dict(msg=short(m)),
+                                    key=keyp + ":negotiation-breaks-codec", expected=[0], observed=g[:2])
+                    return
+        ctx.count("negotiation_steps", n)
+    finally:
+        _logging.disable(saved)
